@@ -1,7 +1,7 @@
 SPECIFICATION Spec
 CONSTANTS
   MaxLen = 3
-  Chunkings = {"whole", "bytes", "allsplits"}
+  Chunkings = {"whole", "bytes", "allsplits", "nextsplits"}
   SplitMaxLen = 1
 INVARIANTS RepliesNeverOutrun RepliedBeforeBlocking QuitStops AllAnswered Export
 CHECK_DEADLOCK FALSE
